@@ -182,6 +182,19 @@ pub fn catalogue() -> Vec<Entry> {
     v.push(entry!((i32, i32) -> i32));
     v.push(entry!((i32) -> i32));
     v.push(entry!(() -> i32));
+    // filtermap payloads fixed only by an unsuffixed literal, and their neighbours
+    v.push(entry!(() -> Verdict<f64, ()>));
+    v.push(entry!(() -> Verdict<f32, ()>));
+    v.push(entry!(() -> Verdict<i32, ()>));
+    v.push(entry!(() -> Verdict<i64, ()>));
+    v.push(entry!(() -> Verdict<u32, ()>));
+    v.push(entry!(() -> Verdict<List<f64>, Option<i32>>));
+    v.push(entry!(() -> Verdict<List<f32>, Option<i32>>));
+    v.push(entry!(() -> Verdict<List<f64>, Option<i64>>));
+    // what a script-declared `List` / `Result` / `Verdict` could be mistaken for
+    v.push(entry!((List<i32>) -> i32));
+    v.push(entry!((Result<i32, i32>) -> i32));
+    v.push(entry!((Verdict<i32, i32>) -> i32));
     v
 }
 
@@ -353,7 +366,10 @@ impl W {
                     }
                 };
                 // the extra payload parameters are part of the signature
-                let mut full_params = params.clone();
+                let mut full_params = if style >= 6 && style <= 8 { Vec::new() } else { params.clone() };
+                if style >= 6 && style <= 8 {
+                    ps.clear();
+                }
                 match style {
                     0 => {
                         full_params.push((**a).clone());
@@ -386,7 +402,7 @@ impl W {
                 _ => ("enum Verdict[A, B] { Accept(A), Reject(B) }", "@script-declared Verdict", "Verdict[i32, i32]"),
             };
             let ctor = decl.split(|ch| ch == ' ' || ch == '[').nth(1).unwrap_or("List");
-            if !all.contains(&format!("{ctor}[")) && !all.contains("filtermap") {
+            if !all.contains(&format!("{ctor}[")) && (ctor != "Verdict" || !all.contains("filtermap")) {
                 out.push(ScriptFn {
                     name: "shadowed".into(),
                     filtermap: false,
